@@ -58,9 +58,21 @@ RBQ = dict(name='RBTree.lookups+DeleteWithIterator', probe='k05q', fam=['rb'], q
 RBC = dict(name='RBTree.CloneDeep/CloneShallow/Erase', probe='k05c', fam=['rb'], quick=800, thorough=30000,
            case_start=r'^new$', nontrivial=nt_has('deep'), min_per_shard=100,
            rule='deep clones into allocators holding other trees and gaps; Used() accounting and Erase asserted Go-side')
+RBW = dict(name='several trees on shared/cloned allocators (Insert/Delete/Erase/CloneDeep/Clone+CloneShallow)', probe='k06w',
+           fam=['rbw'], quick=1500, thorough=60000, case_start=r'^new$', nontrivial=nt_has('erase', 'del'), min_per_shard=100,
+           rule='1-4 trees on 1-3 allocators, 10-100 ops per case: inserts/deletes (by key and by held iterator), Erase, '
+                'deep clones into other allocators, Allocator.Clone + CloneShallow, observations of erased trees; compared after '
+                'every op: preorder dump with node indices, min/max node, count, allocator size / sorted gaps / Used(); Go-side: '
+                'invariants incl. parent links, node sets of trees pairwise disjoint and disjoint from gaps, Used() = live+1, '
+                'iteration both ways = sorted map, held iterators still point at their element')
 HB = dict(name='Allocator.Hibernate/Boot/Serialize/Deserialize', probe='k06h', fam=['hb'], quick=3000, thorough=100000,
           case_start=r'^new$', nontrivial=nt_has('hib', 'boot'),
           rule='raw arenas with gaps, thresholds 0..11, hibernate/boot/serialize/deserialize incl. the three panics')
+HBF = dict(name='Allocator.Serialize bytes + Deserialize of every truncation', probe='k06f', fam=['hbf'], quick=320, thorough=20000,
+           case_start=r'^file ', nontrivial=nt_has('trunc'), min_per_shard=20,
+           rule='allocators with 1-60 inserts and random deletions (gaps or none), hibernated, written by the real Serialize; the '
+                'file bytes are compared with the model; the file is then cut at EVERY offset (<=400 bytes) or at all section '
+                'boundaries +-1 plus 80 random offsets and read back: model and code must both refuse; complete file must restore the allocator')
 MG = dict(name='File.Merge', probe='k07', fam=['mg'], quick=20000, thorough=600000, nontrivial=nt_any,
           rule='k=1..4 copies of 0..7 lines with marks / packed authors / unequal lengths; distinct by op text')
 TK = dict(name='FloorTime+tick arithmetic', probe='k19', fam=['tk'], quick=50000, thorough=1500000, nontrivial=nt_any,
@@ -145,11 +157,11 @@ PROPS = {
     'C02': dict(level='translation_validation', corr=[PLAN4, PLAN5, PLAN6, PLANR]),
     'C03': dict(corr=[FU]),
     'C04': dict(corr=[GC, PLAN5, PLANR]),
-    'C05': dict(corr=[RB, RBQ, RBC]),
-    'C06': dict(corr=[RB, RBC, HB]),
+    'C05': dict(corr=[RB, RBQ, RBC, RBW]),
+    'C06': dict(corr=[RB, RBC, RBW, HB, HBF]),
     'C07': dict(corr=[MG, DAG]),
-    'C08': dict(corr=[DAG, RBC]),
-    'C09': dict(corr=[RUN, HB, E01]),
+    'C08': dict(corr=[DAG, RBC, RBW]),
+    'C09': dict(corr=[RUN, HB, HBF, E01]),
     'C10': dict(level='translation_validation', corr=[RES]),
     'C11': dict(corr=[LN]),
     'C12': dict(corr=[LN, RUN]),
